@@ -26,6 +26,9 @@ class CFG:
         n = len(func.blocks)
         self.n = n
         self.succ = [succs(b["term"], unwind) for b in func.blocks]
+        # `otherwise -> unreachable` arms of exhaustive matches are not edges
+        dead = {i for i, b in enumerate(func.blocks) if b["term"]["k"] == "unreachable"}
+        self.succ = [[s for s in ss if s not in dead] for ss in self.succ]
         self.pred = [[] for _ in range(n)]
         for i, ss in enumerate(self.succ):
             for s in ss:
